@@ -274,7 +274,7 @@ def parts(tier):
     quick = tier == "quick"
     return [
         HypPart(name="compile", check=check_compile, strategy=_case, known_class=known_class,
-                examples=400 if quick else 20000, seconds=45 if quick else 700),
+                examples=400 if quick else 20000, seconds=45 if quick else 600),
         EnumPart(name="prio", check=check_compile, items=_prio_items, known_class=known_class),
         EnumPart(name="kinds", check=check_compile, items=_kind_items, known_class=known_class),
         HypPart(name="cli", check=check_cli, strategy=_cli_case,
